@@ -38,6 +38,12 @@ pub const MAX_MESSAGE_SIZE: usize = 4 * 1024 * 1024;
 /// application protocol level.
 pub const MAX_BATCH_SIZE: usize = 2 * 1024 * 1024;
 
+/// Maximum number of blocks in a single Bitswap message. [`MAX_BATCH_SIZE`] only counts block
+/// payload bytes, while every block additionally costs up to 35 bytes of protobuf framing and CID
+/// prefix, so the block count must be bounded as well to keep the encoded message within
+/// [`MAX_MESSAGE_SIZE`]: `MAX_BATCH_SIZE + 35 * MAX_BATCH_BLOCKS + 2 <= MAX_MESSAGE_SIZE`.
+pub const MAX_BATCH_BLOCKS: usize = 32 * 1024;
+
 /// Bitswap configuration.
 #[derive(Debug)]
 pub struct Config {
